@@ -400,6 +400,12 @@ def pgdmLoop (proj : V → V) (f : V → K) (grad : V → V) (dot : V → V → 
     if isDoing errs' numHist eps then pgdmLoop proj f grad dot sqrt mag gamma c95 eps mode numHist fuel s' errs'
     else (s', errs')
 
+/-- `ProjectedGradientDescentWithMomentum.optimize` around the loop: `none` for `max_iteration = 0` (Python: the loop body never
+runs and `if k == max_iteration` raises `UnboundLocalError`) -/
+def pgdmOptimize (proj : V → V) (f : V → K) (grad : V → V) (dot : V → V → K) (sqrt : K → K) (mag : V → Int)
+    (gamma c95 eps : K) (mode : StopMode) (numHist maxIter : Nat) (s0 : PgdmState K V) : Option (PgdmState K V × List K) :=
+  if maxIter = 0 then none else some (pgdmLoop proj f grad dot sqrt mag gamma c95 eps mode numHist maxIter s0 [])
+
 /-! ### FISTA -/
 
 /-- loop body of the FISTA variant at iteration `k` (1-based): returns `x_next`; `kcoef k` is `(k - 2) / (k + 1)` -/
@@ -415,6 +421,12 @@ def fistaLoop (proj : V → V) (f : V → K) (grad : V → V) (dot : V → V →
     let errs' := errs ++ [errorValue mode f sqrt (fun v => dot v v) x xn xn]
     if isDoing errs' numHist eps then fistaLoop proj f grad dot sqrt delta eps kcoef mode numHist fuel (k + 1) xn x errs'
     else (xn, errs')
+
+/-- `ProjectedFastIterativeShrinkageThresholdingAlgorithm.optimize` around the loop (`k` starts at 1, `x_prev_prev = x_prev`):
+`none` for `max_iteration = 0` (`UnboundLocalError` on `k`) -/
+def fistaOptimize (proj : V → V) (f : V → K) (grad : V → V) (dot : V → V → K) (sqrt : K → K) (delta eps : K)
+    (kcoef : Nat → K) (mode : StopMode) (numHist maxIter : Nat) (xStart : V) : Option (V × List K) :=
+  if maxIter = 0 then none else some (fistaLoop proj f grad dot sqrt delta eps kcoef mode numHist maxIter 1 xStart xStart [])
 
 end pgd
 
@@ -447,8 +459,36 @@ def seValue {m n : Nat} (A : Mat Rat m n) (c : Vec Rat m) (x : Vec Rat n) : Rat 
   let r := (A.mulVec x).add c
   r.dot r
 
+/-- weighted squared error `f x = (A x + c)ᵀ W (A x + c)` (the losses' `mode_weight` other than `identity`: `W` the block-diagonal
+weight matrix) -/
+def wseValue {m n : Nat} (A : Mat Rat m n) (c : Vec Rat m) (W : Mat Rat m m) (x : Vec Rat n) : Rat :=
+  let r := (A.mulVec x).add c
+  r.dot (W.mulVec r)
+
 def seGrad {m n : Nat} (A : Mat Rat m n) (c : Vec Rat m) (x : Vec Rat n) : Vec Rat n :=
   Vec.smul 2 (A.transpose.mulVec ((A.mulVec x).add c))
+
+/-- `np.ceil(np.log10(q))` for `q > 0`: the smallest integer `m` with `q ≤ 10^m` (`none` for `q ≤ 0`, where numpy gives `-inf` / nan) -/
+def ceilLog10 (q : Rat) : Option Int :=
+  if q ≤ 0 then none
+  else if 1 < q then
+    -- smallest m ≥ 1 with q ≤ 10^m
+    (List.range 400).find? (fun m => q ≤ (10 : Rat) ^ m) |>.map (fun m => (m : Int))
+  else
+    -- q ≤ 1: largest j ≥ 0 with q ≤ 10^(-j), result -j
+    match (List.range 400).find? (fun j => ¬ (q * (10 : Rat) ^ (j + 1) ≤ 1)) with
+    | some j => some (-(j : Int))
+    | none => none
+
+def parseVecs? (n : Nat) (s : String) : Option (List (Vec Rat n)) :=
+  if s = "-" then some [] else (s.splitOn ";").mapM fun t => (parseList? parseRat? t) >>= toVec n
+
+/-- table look-up of a recorded projection: the value recorded for the nearest recorded argument -/
+def nearest {n : Nat} (keys vals : List (Vec Rat n)) (dflt : Vec Rat n) (z : Vec Rat n) : Vec Rat n :=
+  let d := fun (k : Vec Rat n) => Vec.dot (Vec.sub k z) (Vec.sub k z)
+  match (keys.zip vals) with
+  | [] => dflt
+  | kv :: rest => (rest.foldl (fun best e => if d e.1 < d best.1 then e else best) kv).2
 
 def parseBool? : String → Option Bool
   | "true" => some true | "false" => some false | _ => none
@@ -552,8 +592,49 @@ def handle (args : List String) : Option String :=
       let c : Vec Rat n := Vec.smul (-1) ref
       let proj : Vec Rat n → Vec Rat n := fun v => Vec.ofFn fun i => if v.get i < lo then lo else if hi < v.get i then hi else v.get i
       let kc : Nat → Rat := fun k => (((k : Int) - 2 : Int) : Rat) / (((k : Int) + 1 : Int) : Rat)
-      let r := fistaLoop proj (seValue A c) (seGrad A c) Vec.dot ratSqrt delta eps kc mode numHist maxIter 1 xs xs []
-      some s!"{r.2.length} {showVec r.1} {showList showRat r.2}"
+      match fistaOptimize proj (seValue A c) (seGrad A c) Vec.dot ratSqrt delta eps kc mode numHist maxIter xs with
+      | none => some "none"
+      | some r => some s!"{r.2.length} {showVec r.1} {showList showRat r.2}"
+  | ["pgdmrun", n, ref, xs, lo, hi, gamma, c95, eps, mode, numHist, maxIter] => do
+      -- a whole run of `pgdmLoop` (momentum): clamp projection, loss `‖x − ref‖²` (> 0 on the box: `ref` is chosen outside it)
+      let n ← parseNat? n
+      let ref ← (parseList? parseRat? ref) >>= toVec n
+      let xs ← (parseList? parseRat? xs) >>= toVec n
+      let lo ← parseRat? lo
+      let hi ← parseRat? hi
+      let gamma ← parseRat? gamma
+      let c95 ← parseRat? c95
+      let eps ← parseRat? eps
+      let mode ← StopMode.ofString? mode
+      let numHist ← parseNat? numHist
+      let maxIter ← parseNat? maxIter
+      let A : Mat Rat n n := Mat.one
+      let c : Vec Rat n := Vec.smul (-1) ref
+      let proj : Vec Rat n → Vec Rat n := fun v => Vec.ofFn fun i => if v.get i < lo then lo else if hi < v.get i then hi else v.get i
+      let f := seValue A c
+      let mag0 ← ceilLog10 (f xs)
+      let mag : Vec Rat n → Int := fun v => match ceilLog10 (f v) with
+        | some m => m
+        | none => mag0         -- loss 0 is excluded by the harness (numpy would give -inf)
+      match pgdmOptimize proj f (seGrad A c) Vec.dot ratSqrt mag gamma c95 eps mode numHist maxIter ⟨xs, Vec.zero, c95, mag0⟩ with
+      | none => some "none"
+      | some r => some s!"{r.2.length} {showVec r.1.x} {showList showRat r.2} {showRat r.1.zeta}"
+  | ["dykrun", n, order, eps, maxIter, x0, eqK, eqV, inK, inV] => do
+      -- a whole run of `projPhysical` (all sweeps, order → (first, second) projection, initial state, stop / limit) with the two
+      -- elementary projections given as tables recorded from the real run
+      let n ← parseNat? n
+      let order ← parseOrder? order
+      let eps ← parseRat? eps
+      let maxIter ← parseNat? maxIter
+      let x0 ← (parseList? parseRat? x0) >>= toVec n
+      let eqK ← parseVecs? n eqK
+      let eqV ← parseVecs? n eqV
+      let inK ← parseVecs? n inK
+      let inV ← parseVecs? n inV
+      if eqK.length ≠ eqV.length ∨ inK.length ≠ inV.length then none else
+      match projPhysical (nearest eqK eqV x0) (nearest inK inV x0) order (fun v => Vec.dot v v) eps maxIter Vec.zero x0 with
+      | none => some "none"
+      | some (x, stopped) => some s!"{showVec x} {stopped}"
   | ["ple", order, n] => do
       let order ← parseOrder? order
       let n ← parseNat? n
